@@ -657,6 +657,36 @@ def _mod_affine(t, is_state):
     return sym.affine(effects.rebuild(t, f))
 
 
+def check_legacy_constructors_agree(ctx, F):
+    """The deprecated float constructors (`from_floating_point_probabilities`, `from_symbols_and_floating_point_probabilities`) of
+    the five categorical model types are one family: each forwards to the sibling strategy of its own type, and all to the *same*
+    strategy (today `_perfect`) - two representations built by the same-named constructor from the same table are the same model.
+    A member that forwards to the other strategy produces a different table."""
+    fam = [b for b in F.bodies if b.promoted is None and b.dk == 'AssocFn' and b.name in ('from_floating_point_probabilities', 'from_symbols_and_floating_point_probabilities')
+           and '::tests::' not in b.defpath and not b.defpath.startswith(('pybindings', '<pybindings')) and (b.self_adt or '').startswith('stream::model::categorical')]
+    key = 'R4/legacy-constructors-agree'
+    role = 'the deprecated float constructors of all model types forward to the same strategy'
+    if len(fam) < 3:
+        return ctx.unresolved('R4', role, 'stream::model::categorical', 'only %d deprecated float constructors found' % len(fam), key=key)
+    strat = {}
+    for b in fam:
+        ctx.touch(b)
+        tg = sorted({(facts_callee(t) or '').rsplit('::', 1)[-1] for _, t in b.calls() if (facts_callee(t) or '').rsplit('::', 1)[-1].startswith('from_') and (facts_callee(t) or '').rsplit('::', 1)[-1] != b.name})
+        suffix = sorted({x.rsplit('_', 1)[-1] for x in tg})
+        strat[b.defpath] = suffix
+    kinds = {}
+    for d, sfx in strat.items():
+        kinds.setdefault(tuple(sfx), []).append(d)
+    if any(len(k) != 1 for k in kinds):
+        return ctx.unresolved('R4', role, 'stream::model::categorical', 'a deprecated constructor does not forward to exactly one sibling constructor: %s' % {d.rsplit('::', 2)[-2][:40]: s_ for d, s_ in strat.items() if len(s_) != 1}, key=key)
+    if len(kinds) == 1:
+        return ctx.ok('R4', role, 'stream::model::categorical', '%d constructors, all forward to `..._%s`' % (len(fam), next(iter(kinds))[0]), key=key)
+    major = max(kinds.items(), key=lambda kv: len(kv[1]))[0]
+    odd = [d for k, ds in kinds.items() if k != major for d in ds]
+    ob = F.by_def[odd[0]]
+    ctx.bad('R4', role, odd[0], 'forwards to `..._%s` while its %d siblings forward to `..._%s`: the same-named constructor now builds a different table for this representation than for the others' % (strat[odd[0]][0], len(kinds[major]), major[0]), key=key, loc=rules.loc(ob))
+
+
 def check_nth_agrees_with_size_hint(ctx, F):
     """An iterator over a symbol table that overrides `nth` (to jump instead of stepping) defines "advance by n" a second time.
     Whatever the jump does, it may return `None` for `n` only if fewer than `n + 1` items are left - and the number of items
@@ -1037,6 +1067,7 @@ def run(ctx):
     check_cdf_search_extent(ctx, F)
     check_size_hint_steps(ctx, F)
     check_nth_agrees_with_size_hint(ctx, F)
+    check_legacy_constructors_agree(ctx, F)
     check_conservative_preskip(ctx, F)
     check_uniform_table_extent(ctx, F)
     check_symbol_successor(ctx, F)
